@@ -5,7 +5,7 @@
     reflexive <L>          does every literal set containing both trunk constraints of one sentence close (C10)
                            answer: ok | bad
     saturated <L> ## <node> ; <node> ; …     is this (open) branch saturated in the sense of Ptx/Tab/Saturated.lean
-                           answer: ok [ground] | quit | unsat <clause …>   (ground: the Hintikka theorem's hypothesis groundB holds) | <clause …> …   (first 6 clauses, ' | ' separated)
+                           answer: ok [ground|fo] | quit | unsat <clause …>   (ground: the Hintikka theorem's hypothesis groundB holds) | <clause …> …   (first 6 clauses, ' | ' separated)
 -/
 import Ptx.Wire
 import Ptx.Sem.Extends
@@ -33,7 +33,7 @@ def handle (ts : List String) : Option String :=
           let b : Branch := { nodes := nodes }
           if b.hasQuit then some "quit" else
           match L.unsaturated b with
-          | [] => some (if b.groundB L then "ok ground" else "ok")
+          | [] => some (if b.groundB L then "ok ground" else if b.foB L then "ok fo" else "ok")
           | ms => some ("unsat " ++ " | ".intercalate (ms.take 6))
       | none, _ => some "err:unknown-logic"
       | _, none => some "err:wire"
